@@ -197,7 +197,7 @@ class Gen:
     def bindfn(self, depth, enclosing):
         nt = self.rng.choice([1, 2, 2, 3])
         ts = [self.template(depth, enclosing) for _ in range(nt)]
-        return "{ " + self.effs(self.p["eff_in_templates"]) + " " + " | ".join(ts) + " }"
+        return "{ " + self.effs(self.p["eff_in_templates"] or (depth == 1 and self.p["eff_prob"] > 0)) + " " + " | ".join(ts) + " }"
 
     def op_bind(self):
         lhs = self.pick_node()
@@ -242,7 +242,13 @@ class Gen:
         elif k == "read":
             self.emit(f"read {o}")
         elif k == "subscribe" and not self.obs[o].get("dead"):
-            self.emit(f"subscribe {o} {len(self.subs)} {self.effs(self.p['eff_in_handlers'])}")
+            # callbacks of one node run in HashMap order: at most one of them may have effects
+            node = self.obs[o]["node"]
+            allow = self.p["eff_in_handlers"] and node is not None and not self.nodes[node].get("eff_handler")
+            e = self.effs(allow)
+            if e != "[]":
+                self.nodes[node]["eff_handler"] = True
+            self.emit(f"subscribe {o} {len(self.subs)} {e}")
             self.subs.append(dict(obs=o))
         elif k == "unsubscribe" and self.subs:
             s = self.rng.randrange(len(self.subs))
@@ -345,6 +351,13 @@ PROFILES = {
                   obs_ops=["read", "read", "read", "clone", "drop", "disallow"], read_after_stabilise=0.3),
     "subs": dict(weights=w(observe=7, obs_misc=16, write=12, stabilise=10, bind=3, cutoff=0),
                  obs_ops=["subscribe", "subscribe", "subscribe", "unsubscribe", "stateunsub", "clone", "drop", "disallow", "read"]),
+    # C08: closures and handlers that write and read variables
+    "writes": dict(eff_prob=0.45, eff_in_templates=False, eff_in_handlers=True,
+                   eff_kinds=["set", "update", "modify", "replace", "replacewith", "get", "get"],
+                   cutoffs=["eq", "never"], pair_prob=0.0,
+                   weights=w(var=3, map=10, bind=3, write=12, stabilise=10, observe=6, obs_misc=8, mapref=1, mapold=1, fold=1,
+                             zip=0, dependon=1, cutoff=1),
+                   obs_ops=["subscribe", "subscribe", "read", "drop", "clone", "unsubscribe"]),
     "lifecycle": dict(weights=w(var=1, map=3, bind=1, observe=8, obs_misc=20, write=5, stabilise=7, mapref=0, mapold=0, fold=0,
                                 zip=0, dependon=0, cutoff=0),
                       obs_ops=["clone", "drop", "drop", "disallow", "read", "read", "subscribe", "subscribe", "unsubscribe",
